@@ -422,3 +422,145 @@ def _rebuild_taperng(state, scripted, scalars, normals, full_upto):
     r = TapeRNG(0, None, scripted, scalars, normals, full_upto)
     r.set_state(state)
     return r
+
+
+# --------------------------------------------------------------------------
+# stream model of a generator (used for stateful stream subjects)
+# --------------------------------------------------------------------------
+class StreamRNG(np.random.RandomState):
+    """Model of a random generator as a lazily decided *stream*: the value at
+    stream position p is decided by the tape the first time it is read and
+    is the same whenever position p is read again (after `set_state` went
+    back). `get_state` / `set_state` save and restore the position, so code
+    that simulates draws and restores the generator sees the same numbers
+    again, exactly like the real generator; code that forgets to restore
+    sees fresh (explorer-chosen) numbers.
+
+    * random_sample(size) / random(size) / rand(): each element is one stream
+      position in *region mode*: the tape picks one representative from
+      `self.scalars` (midpoints of the regions between the comparison
+      thresholds of the configuration), so every outcome of every comparison
+      is produced.
+    * normal(loc, scale): one position, value loc + scale * z with z from
+      `self.normals`.
+    Everything else is unsupported (raises), so an un-modelled draw cannot go
+    unnoticed.
+
+    Fingerprint: only decided values at positions >= the current position are
+    observable in the future, so `canon_state` is that set relative to the
+    position; two generators that differ only in consumed history merge.
+    With `observe=<real RandomState>` the real generator supplies the values
+    and their regions are recorded on the tape (conformance runs)."""
+
+    def __init__(self, tape=None, thresholds=(0.5,), normals=(0.0, -2.0, 2.0), observe=None):
+        super().__init__(0)
+        self.tape = tape
+        self.thresholds = tuple(sorted(set(float(t) for t in thresholds if 0.0 < t < 1.0)))
+        edges = (0.0,) + self.thresholds + (1.0,)
+        self.scalars = tuple((edges[i] + edges[i + 1]) / 2 for i in range(len(edges) - 1))
+        self.normals = tuple(normals)
+        self.pos = 0
+        self.memo = {}
+        self.real = observe
+
+    # -- state --------------------------------------------------------------
+    def get_state(self, legacy=True):
+        if self.real is not None:
+            return ("VERIF-STREAM", self.pos, self.real.get_state())
+        return ("VERIF-STREAM", self.pos, None)
+
+    def set_state(self, state):
+        if not (isinstance(state, tuple) and state and state[0] == "VERIF-STREAM"):
+            raise TypeError("StreamRNG.set_state: foreign state %r" % (state,))
+        self.pos = state[1]
+        if self.real is not None and state[2] is not None:
+            self.real.set_state(state[2])
+
+    def __deepcopy__(self, memo):
+        import copy as _copy
+
+        new = StreamRNG(self.tape, self.thresholds, self.normals, _copy.deepcopy(self.real))
+        new.pos = self.pos
+        new.memo = dict(self.memo)
+        return new
+
+    def __reduce__(self):
+        return (_rebuild_streamrng, (self.thresholds, self.normals, self.pos, dict(self.memo)))
+
+    def canon_state(self):
+        return tuple(sorted((p - self.pos, k, a) for (p, k), a in self.memo.items() if p >= self.pos))
+
+    def _tape(self):
+        return self.tape if self.tape is not None else _STATE["tape"]
+
+    # -- draws --------------------------------------------------------------
+    def _region(self, v):
+        r = 0
+        for t in self.thresholds:
+            if v > t:
+                r += 1
+        return r
+
+    def _one(self, kind):
+        key = (self.pos, kind)
+        self.pos += 1
+        alphabet = self.scalars if kind == "u" else self.normals
+        if self.real is not None:
+            if kind == "u":
+                v = float(np.random.RandomState.random_sample(self.real))
+                a = self._region(v)
+            else:
+                raise Unobservable("normal draw cannot be mapped to a region")
+            if key in self.memo:
+                return self.memo[key][1]
+            tp = self._tape()
+            if tp is not None and len(alphabet) > 1:
+                tp.points.append((len(alphabet), a, kind))
+            self.memo[key] = (a, v)
+            return v
+        if key not in self.memo:
+            tp = self._tape()
+            a = tp.choose(len(alphabet), kind) if tp is not None else 0
+            self.memo[key] = (a, alphabet[a])
+        return self.memo[key][1]
+
+    def random_sample(self, size=None):
+        if size is None:
+            return self._one("u")
+        n = int(np.prod(size))
+        return np.array([self._one("u") for _ in range(n)], dtype=float).reshape(size)
+
+    random = random_sample
+
+    def rand(self, *dims):
+        return self.random_sample(dims if dims else None)
+
+    def normal(self, loc=0.0, scale=1.0, size=None):
+        if size is not None:
+            raise NotImplementedError("StreamRNG.normal with size")
+        return loc + scale * self._one("n")
+
+    def randint(self, low, high=None, size=None, dtype=int):
+        # used once to derive the seed of a nested budget manager; constant
+        if size is not None:
+            raise NotImplementedError("StreamRNG.randint with size")
+        return 12345
+
+    def choice(self, *a, **k):
+        raise NotImplementedError("StreamRNG.choice")
+
+    def permutation(self, *a, **k):
+        raise NotImplementedError("StreamRNG.permutation")
+
+    def shuffle(self, *a, **k):
+        raise NotImplementedError("StreamRNG.shuffle")
+
+    def uniform(self, *a, **k):
+        raise NotImplementedError("StreamRNG.uniform")
+
+
+def _rebuild_streamrng(thresholds, normals, pos, memo):
+    r = StreamRNG(None, thresholds, normals)
+    r.pos = pos
+    r.memo = memo
+    return r
